@@ -189,21 +189,28 @@ def run_case(c, ns):
                 raw = p.pack()
             except Exception as e:
                 return {"packed": outcome_of_exception(e), "derived": []}
-            variants = [(raw, 0)]
+            variants = [(raw, 0, "base")]
             cuts = list(range(len(raw))) if len(raw) <= c.get("maxcuts", 16) else sorted(rnd.sample(range(len(raw)), c.get("maxcuts", 16)))
-            variants += [(raw[:k], 0) for k in cuts]
+            variants += [(raw[:k], 0, "cut") for k in cuts]
             for _ in range(c.get("flips", 3)):
                 if raw:
                     b = bytearray(raw)
                     b[rnd.randrange(len(b))] = rnd.choice([0, 1, 2, 3, 0x80, 0xff, rnd.randrange(256)])
-                    variants.append((bytes(b), 0))
+                    variants.append((bytes(b), 0, "flip"))
             for off in c.get("offsets", []):
                 pre = bytes(rnd.choice([0, 10, 58, 65, 255, rnd.randrange(256)]) for _ in range(off))
-                suf = bytes(rnd.choice([0, 10, 58, 65, 255]) for _ in range(rnd.randrange(3)))
-                variants.append((pre + raw + suf, off))
+                suf = bytes(rnd.choice([0, 10, 58, 65, 255]) for _ in range(rnd.randrange(1, 4)))
+                variants.append((pre + raw, off, "prefix"))
+                variants.append((pre + raw + suf, off, "prefix+suffix"))
+                if c.get("cut_with_prefix") and raw:
+                    k = rnd.randrange(len(raw))
+                    variants.append((raw[:k], 0, "cut2"))
+                    variants.append((pre + raw[:k], off, "prefix-of-cut2"))
+            if c.get("offsets"):
+                variants.append((raw + bytes(rnd.choice([0, 10, 58, 65, 255]) for _ in range(rnd.randrange(1, 4))), 0, "suffix"))
             out = []
-            for r, off in variants:
-                out.append({"raw": r.hex(), "offset": off,
+            for r, off, kind in variants:
+                out.append({"raw": r.hex(), "offset": off, "variant": kind,
                             "outcome": run_case({"cls": c["cls"], "op": "roundtrip", "raw": r.hex(), "offset": off,
                                                  "record": c.get("record")}, ns)})
             return {"packed": {"ok": raw.hex()}, "derived": out}
